@@ -307,7 +307,7 @@ func (f *ObjectLayoutFixer) fixLayout(mapping LayoutMapping, value octosql.Value
 	case octosql.TypeIDTuple:
 		out := make([]octosql.Value, len(value.Tuple))
 		for i := range out {
-			out[i] = f.fixLayout(mapping.Tuple.ElementMapping[i], value.List[i])
+			out[i] = f.fixLayout(mapping.Tuple.ElementMapping[i], value.Tuple[i])
 		}
 		return octosql.NewTuple(out)
 	default:
